@@ -79,3 +79,12 @@ Theorem C04_filtered_measure_guarded : forall conj m x f fs, V.Model.CteShape.cm
     ("CASE WHEN " ++ conj (map (fun f => V.Model.CteShape.py_replace "{model}" "" (V.Model.CteShape.py_replace "{model}." "" f)) (f :: fs)) ++
      " THEN " ++ V.Model.CteShape.measure_base m x ++ " ELSE NULL END")%string.
 Proof. exact V.Proofs.CteShape_proofs.filtered_measure_is_guarded_base. Qed.
+
+Require V.Model.RefRewrite V.Gen.RefRewrite_gen V.Proofs.RefRewrite_proofs.
+(* MAIN-QUERY FILTERS READ THE CTEs, regenerated: Gen/RefRewrite_gen.v holds what SQLGenerator._rewrite_model_refs_to_ctes returns on 10 scripted texts over the models orders /
+   order_items / items (names contained in one another, `_cte`-qualified, unqualified and foreign references; unparsable texts take the textual fallback).  The reference-level
+   model equals the table on its 7 parsed rows: a reference to a registered model (with or without `_cte`) reads that model's CTE, anything else is left alone. *)
+Theorem C04_cte_reference_table :
+  forallb (V.Model.RefRewrite.cte_ref_row_ok V.Gen.RefRewrite_gen.rr_models V.Gen.RefRewrite_gen.rr_texts) V.Gen.RefRewrite_gen.cte_ref_rows = true /\
+  V.Model.RefRewrite.parsed_rows V.Gen.RefRewrite_gen.rr_texts fst V.Gen.RefRewrite_gen.cte_ref_rows = 7%nat.
+Proof. exact V.Proofs.RefRewrite_proofs.cte_ref_table_ok. Qed.
